@@ -10,6 +10,7 @@ import (
 	"path/filepath"
 	"regexp"
 	"runtime"
+	"runtime/debug"
 	"sort"
 	"strconv"
 	"strings"
@@ -124,6 +125,10 @@ func New(id, level string) *Run {
 	if os.Getenv("VERIF_CHILD") == "" {
 		go r.stallMonitor()
 	}
+	current = r
+	// a panic raised by the code under test outside every guarded call (see Guard / Par) is recorded under this
+	// scenario; it cannot be replayed in isolation, so it is decided by the whole-run replay
+	r.scen["uncaught-library-panic"] = func([]byte) (string, string) { return "", "" }
 	return r
 }
 
@@ -484,6 +489,52 @@ func (r *Run) ReplayFile(path string) int {
 	return 0
 }
 
+var current *Run
+
+// libraryFrame returns the function that raised the panic whose stack is given when that function belongs to
+// the code under test (the library or its REST package, not the harness and not the injected runtime), else "".
+func libraryFrame(stack string) string {
+	lines := strings.Split(stack, "\n")
+	seenPanic := false
+	for _, l := range lines {
+		if strings.HasPrefix(l, "\t") || l == "" {
+			continue
+		}
+		if strings.HasPrefix(l, "panic(") {
+			seenPanic = true
+			continue
+		}
+		if !seenPanic || strings.HasPrefix(l, "runtime.") || strings.HasPrefix(l, "runtime/") {
+			continue
+		}
+		fn := l
+		if k := strings.LastIndex(fn, "("); k > 0 {
+			fn = fn[:k]
+		}
+		if strings.HasPrefix(fn, "github.com/ja7ad/otp") && !strings.Contains(fn, "/verifharness") && !strings.Contains(fn, "/internal/verifrt") {
+			return fn
+		}
+		return ""
+	}
+	return ""
+}
+
+// Guard runs f; a panic raised by the code under test is recorded as a failure of the running check (and
+// f is abandoned), any other panic is passed on.  It is the net under the per-call guards of the checks.
+func Guard(what string, f func()) {
+	defer func() {
+		if pv := recover(); pv != nil {
+			fn := libraryFrame(string(debug.Stack()))
+			if fn == "" || current == nil {
+				panic(pv)
+			}
+			current.Fail("uncaught-library-panic", fmt.Sprintf("%v (raised in %s)", pv, fn), what, "no panic", fmt.Sprint(pv))
+			current.NotExhaustive("a panic of the code under test cut " + what + " short")
+		}
+	}()
+	f()
+}
+
 // Par runs f(i) for i in [0,n) on all cores.
 func Par(n int, f func(i int)) {
 	w := runtime.GOMAXPROCS(0)
@@ -492,7 +543,7 @@ func Par(n int, f func(i int)) {
 	}
 	if w <= 1 {
 		for i := 0; i < n; i++ {
-			f(i)
+			Guard(fmt.Sprintf("job %d of an enumeration", i), func() { f(i) })
 		}
 		return
 	}
@@ -507,7 +558,7 @@ func Par(n int, f func(i int)) {
 				if i >= n {
 					return
 				}
-				f(i)
+				Guard(fmt.Sprintf("job %d of a parallel enumeration", i), func() { f(i) })
 			}
 		}()
 	}
